@@ -251,8 +251,8 @@ Section HybCode.
                             else Ok (fst kv, ndiv A (snd kv) total_d)) (h_dur s4) with
       | Err e => hyb_raise e
       | Ok nd =>
-    Call (fun s => s) (fun s5 =>                                   (* iter(counts) *)
-      match scores A aw dw (h_cnt s5) nc nd with
+      (* scores: iterates the local normalized_access_counts (same keys as counts.items() returned) *)
+      match scores A aw dw (h_cnt s3) nc nd with
       | Err e => hyb_raise e
       | Ok [] => hyb_raise ValueError
       | Ok (b :: r) =>
@@ -263,7 +263,7 @@ Section HybCode.
                (fun s => if negb (amem k (h_cnt s)) then hyb_raise KeyError else
           Call (fun s => if amem k (h_dur s) then mkHyb (h_dict s) (h_cnt s) (adel k (h_dur s)) else s)
                (fun s => if negb (amem k (h_dur s)) then hyb_raise KeyError else rest)))
-      end)
+      end
       end)
       end))).
 
